@@ -13,6 +13,8 @@ Num(e) == [e |-> e, kind |-> "num", col |-> e, contr |-> "", lit |-> 1]
 Cat(e, col) == [e |-> e, kind |-> "cat", col |-> col, contr |-> "treatment", lit |-> 1]
 Lit(n) == [e |-> ToString(n), kind |-> "lit", col |-> "", contr |-> "", lit |-> n]
 a == Num("a")  b == Num("b")  h == Num("h")  A == Cat("A", "A")  CA == Cat("C(A)", "A")
+CS == [e |-> "C(A, contr.sum)", kind |-> "cat", col |-> "A", contr |-> "sum", lit |-> 1]
+CHm == [e |-> "C(A, contr.helmert)", kind |-> "cat", col |-> "A", contr |-> "helmert", lit |-> 1]
 I1 == <<Lit(1)>>
 
 \* formulas: [shape, lhs (sequence of parts), rhs (sequence of parts)], a part = sequence of terms
@@ -29,8 +31,11 @@ Formulas == <<
   F("root", <<>>, << <<I1, <<a>>>>, <<<<b>>>> >>),                    \* a | 0 + b
   F("tuple", <<>>, << <<I1, <<a>>>>, <<I1, <<A>>>> >>),               \* Formula(("a", "A"))
   F("kw", << <<<<b>>>> >>, << <<<<a>>, <<A>>>> >>),                   \* Formula(lhs="b", rhs="a + A")  (nested parser: no intercept)
-  F("nested", << <<<<b>>>>, <<<<a>>>> >>, << <<<<A>>>>, <<<<a>>>> >>) >>   \* Formula(x="b ~ a", y=("A", "a"))
-FormulaIds == IF FormulaSet = "c06" THEN 1..9 ELSE {4, 5, 8, 9, 10, 11, 12}
+  F("nested", << <<<<b>>>>, <<<<a>>>> >>, << <<<<A>>>>, <<<<a>>>> >>),     \* Formula(x="b ~ a", y=("A", "a"))
+  \* the same C(...) factor at full rank in one part and at reduced rank in a later one (and the other way round)
+  F("two", << <<<<b>>>> >>, << <<<<CS>>>>, <<I1, <<CS>>, <<a>>>> >>),       \* b ~ 0 + C(A, contr.sum) | C(A, contr.sum) + a
+  F("root", <<>>, << <<I1, <<CHm>>>>, <<<<CHm>>, <<CHm, b>>>> >>) >>       \* C(A, contr.helmert) | 0 + C(A, contr.helmert) + C(A, contr.helmert):b
+FormulaIds == IF FormulaSet = "c06" THEN 1..9 ELSE {4, 5, 8, 9, 10, 11, 12, 13, 14}
 
 VARIABLES na_, nb_, nA_, fid, na, drop0
 vars == <<na_, nb_, nA_, fid, na, drop0>>
